@@ -326,6 +326,10 @@ def alter(octets, cls, target_num=1):
         p['lifetime'] += 1
     elif cls == 'pri.crc':
         p['crc_type'] = 1
+    elif cls == 'pri.flags.rsv':
+        p['flags'] ^= 0x8           # a bundle flag bit RFC 9171 leaves unassigned
+    elif cls == 'tgt.flags.rsv':
+        tgt['flags'] ^= 0x20        # a block flag bit RFC 9171 leaves unassigned
     elif cls == 'tgt.flags':
         tgt['flags'] ^= 0x10
     elif cls == 'tgt.crc':
@@ -436,7 +440,8 @@ def alter(octets, cls, target_num=1):
 
 CLASSES = ['none', 'pri.flags', 'pri.src', 'pri.rpt', 'pri.ts', 'pri.lifetime', 'pri.crc', 'tgt.flags', 'tgt.crc',
            'tgt.data', 'tgt.num', 'tgt.type', 'sec.flags', 'sec.num', 'other.meta', 'other.data', 'sec.source',
-           'sec.scope', 'sec.protected', 'res.tag', 'res.alg', 'res.kid', 'tgt.data+attached']
+           'sec.scope', 'sec.protected', 'res.tag', 'res.alg', 'res.kid', 'tgt.data+attached', 'pri.flags.rsv',
+           'tgt.flags.rsv']
 
 
 def scope_record(scope):
